@@ -1,0 +1,31 @@
+//! Verification hooks (cargo feature `verif-hooks`, off by default)
+//!
+//! A yield point is a no-op unless a hook is installed. A controlled scheduler installs a
+//! hook to take over thread scheduling at the marked points (immediately before lock
+//! acquisitions of the in-memory filesystem).
+
+use std::sync::{Arc, RwLock};
+
+/// The type of an installed hook
+pub type Hook = Arc<dyn Fn(&'static str) + Send + Sync>;
+
+static HOOK: RwLock<Option<Hook>> = RwLock::new(None);
+
+/// Installs a process-wide hook that is called at every yield point
+pub fn install(hook: Hook) {
+    *HOOK.write().unwrap() = Some(hook);
+}
+
+/// Removes the installed hook
+pub fn uninstall() {
+    *HOOK.write().unwrap() = None;
+}
+
+/// Marks a scheduling point; calls the installed hook, if any
+#[inline]
+pub fn yield_point(label: &'static str) {
+    let hook = HOOK.read().unwrap().clone();
+    if let Some(hook) = hook {
+        hook(label);
+    }
+}
